@@ -32,7 +32,9 @@ Reset == E.ev = "reset" /\ scn' = E.scn /\ errs' = {} /\ closes' = <<>> /\ fin' 
 Result == /\ E.ev \in {"result", "driver_poll", "later"}
           /\ errs' = (IF E.res.k = "conn_err" THEN errs \cup {ErrOf(E.res)} ELSE errs)
           \* a later call that does not report the error although one exists
-          /\ pendingLater' = (pendingLater \/ (E.ev = "later" /\ E.res.k # "conn_err"))
+          \* (the DRIVER reports it on every later call; a request handle never reports a DIFFERENT connection error - a later
+          \*  call on a handle whose stream had already reached its end may still say so, that is no connection error at all)
+          /\ pendingLater' = (pendingLater \/ (E.ev = "later" /\ E.who = "driver" /\ E.res.k # "conn_err"))
           /\ UNCHANGED <<scn, closes, fin, ok, why>>
 Final == E.ev = "final" /\ fin' = [driver_parked |-> E.driver_parked, woken |-> E.woken] /\ UNCHANGED <<scn, errs, closes, pendingLater, ok, why>>
 Close == E.ev = "h3_close" /\ closes' = Append(closes, E.code) /\ UNCHANGED <<scn, errs, fin, pendingLater, ok, why>>
